@@ -178,6 +178,43 @@ theorem frame_opens_one_level_deeper (db : Db) (spec : Nat) (l : Loop) (a : Acti
       | nil => cases h2
       | cons g rest' => cases h2; simp only [hst, List.length_cons]; omega
 
+
+/-- `Reachable` is closed under running more of the program -/
+theorem reachable_run {db : Db} {spec : Nat} {l l' : Loop} {more : List Action}
+    (hr : Reachable db spec l) (h : run db spec l more = some (.running l')) : Reachable db spec l' := by
+  obtain ⟨s, f, prog, h0, ht⟩ := hr
+  refine ⟨s, f, prog ++ more, h0, ?_⟩
+  simp only [transactFrames] at ht ⊢
+  split at ht
+  · cases ht
+  · rename_i l1 hf
+    rw [run_append prog more l1 l ht]; exact h
+  · rename_i o hne hf
+    cases ht
+    exact absurd rfl (hne l)
+
+/-- CONSTRUCTIVE half ("nested calls can reach exactly 1024 levels ... no matter how many calls and creates
+completed or failed earlier"): from EVERY reachable loop state - whatever prefix of succeeding / reverting /
+halting / refused calls and creates led to it - in which the probe contract's account is loaded and warm
+(`Warm`: true from the first call to it on), the program "call yourself" opens one frame per call until the top
+frame is exactly 1024 levels below the transaction frame; the call after that is refused with CallTooDeep, and
+so is every other call from there. -/
+theorem nesting_reaches_1024 (db : Db) (spec : Nat) (l : Loop) (caller a : Addr)
+    (hr : Reachable db spec l) (hw : Warm db l.js a) :
+    ∃ l', run db spec l (List.replicate (CALL_STACK_LIMIT + 1 - l.stack.length) (.call (plainCall caller a) plainOracle))
+            = some (.running l') ∧
+      level l' = CALL_STACK_LIMIT ∧ Reachable db spec l' ∧
+      (∀ inp o s' r, makeCallFrame db l'.js inp o = some (s', r) → r = .result .callTooDeep) := by
+  have hi := reachable_inv hr
+  obtain ⟨_, h2, h3⟩ := hi
+  obtain ⟨l', h1, hlen, _, _⟩ := run_nest (db := db) (spec := spec) (caller := caller)
+    (CALL_STACK_LIMIT + 1 - l.stack.length) l (reachable_inv hr) hw (by omega)
+  have hr' := reachable_run hr h1
+  have hlev : level l' = CALL_STACK_LIMIT := by simp only [level]; omega
+  refine ⟨l', h1, hlev, hr', ?_⟩
+  intro inp o s' r h
+  exact ((max_depth db spec l' inp o s' r hr' h).1).2 hlev
+
 /-! ### the hypotheses are satisfiable; the repaired leak -/
 
 def exDb : Db :=
@@ -243,6 +280,35 @@ theorem reachable_example : ∃ l, Reachable exDb 19 l ∧ level l = 1 := by
       simp only [level]; omega
     | done js r => simp [viewOut] at hv
     | fatal => simp [viewOut] at hv
+
+
+def warmView (a : Addr) : Option StepOut → Bool
+  | some (.running l) => match l.js.state a with
+    | some acc => !acc.cold && acc.info.code == some KECCAK_EMPTY
+    | none => false
+  | _ => false
+
+/-- the hypotheses of `nesting_reaches_1024` hold in a concrete reachable state (after the first frame was
+opened the callee's account is loaded, warm, with cached code) -/
+theorem nesting_hypotheses_example : ∃ l, Reachable exDb 19 l ∧ Warm exDb l.js 2 := by
+  have hv : warmView 2 (transactFrames exDb 19 exS (.call (exCall false (.transfer 5)) (exO none false false)) []) = true := by
+    decide
+  cases h : transactFrames exDb 19 exS (.call (exCall false (.transfer 5)) (exO none false false)) [] with
+  | none => rw [h] at hv; simp [warmView] at hv
+  | some out =>
+    rw [h] at hv
+    cases out with
+    | running l =>
+      refine ⟨l, ⟨exS, _, _, rfl, h⟩, ?_⟩
+      simp only [warmView] at hv
+      cases hs : l.js.state 2 with
+      | none => rw [hs] at hv; simp at hv
+      | some acc =>
+        rw [hs] at hv
+        simp only [Bool.and_eq_true, Bool.not_eq_true', beq_iff_eq] at hv
+        exact ⟨acc, KECCAK_EMPTY, hs, hv.1, hv.2, rfl⟩
+    | done js r => simp [warmView] at hv
+    | fatal => simp [warmView] at hv
 
 /-- REGRESSION (the code before /repo commit 4cdd3651): `make_call_frame` returned InvalidExtDelegateCallTarget
 after `checkpoint()` without closing it. For that version `frame_depth_neutral_call` is FALSE: the immediate
